@@ -381,6 +381,8 @@ def norm_angle(tokens):
             out.append(">=")
         elif t == "[]":
             out.extend(["[", "]"])
+        elif t.startswith('@"') or t.startswith("@'"):
+            out.extend(["@", t[1:]])                  # ObjC / C#: '@ "s"' and '@"s"' are the same literal
         else:
             out.append(t)
     return out
